@@ -145,5 +145,7 @@ def run(ctx):
         hand = sorted({(f["impl"]["self_ty"].get("path") or f["impl"]["self_ty"]["s"]) for f in F.fns
                        if f["name"] == "deserialize" and (f.get("impl") or {}).get("trait") == DE and f["impl"].get("impl_pv") == "user"
                        and "__" not in f["impl"]["self_ty"]["s"] and "::deserialize::" not in f["impl"]["self_ty"]["s"]} - set(W.table_enums(F)))
-        ctx.oblige("C12|handwritten", hand == sorted(spec["handwritten_decoders"]),
+        # (a documented lossy type whose decoder is generated instead -- `#[serde(from = "&str")]` -- is still held to its documented
+        # leaf type and semantics by the clauses above; what may not appear is a hand-written decoder that is not documented)
+        ctx.oblige("C12|handwritten", set(hand) <= set(spec["handwritten_decoders"]),
                    "hand-written Deserialize impls are %s, documented lossy types are %s: an unaudited decoder could alter accepted values" % (hand, sorted(spec["handwritten_decoders"])), cfg=cfg)
